@@ -327,6 +327,7 @@ func runRound(rp roundPlan) {
 	parserCrossPhase(rp)
 	cronNamesPhase(rp)
 	loggerOutputKinds(rp.idx, fmt.Sprintf("r%d", rp.idx), rp.idx%2 == 1)
+	loggerSlowSinkPhase(rp)
 	for g := 0; g < rp.G; g++ {
 		per := map[int][2]int{} // k -> (conclusive, with >= 16 goroutines active)
 		for _, e := range results[g] {
@@ -405,6 +406,7 @@ func TestCheck(t *testing.T) {
 		"Then a separate-parsers phase: ParseStandard and five Parsers (seconds-first, SecondOptional, Minute|Hour, Descriptor-only, DowOptional) parse the same 8 seeded specs (2/4/5/6 numeric fields valid in every position, TZ=/CRON_TZ= prefixes, descriptors and @every); every text has a run pattern of blanks and tabs between its fields that no parse of the process has seen before, so the expectation for (parser, spec) is the parser's solo result on an equivalent fresh text (accepted/refused, bit sets, Location, Next at 3 instants); judged: B parsing a text right after A parsed the same text (all ordered pairs over the rounds), a parse after the caller changed Location/Minute/Hour of the schedule it got back, schedules retained from descriptor parses under 6 TZ prefixes re-queried after sequential and after 24-goroutine concurrent parses. "+
 		"Then a names phase: month and day-of-week names are case-insensitive; the 57 spellings with a lower-case first letter (jAn, jaN, jAN ...) are reserved for it and rationed over the rounds of a child (up to 6 per round), each put into a 5-field spec as a single name, a range, a list or a range with a step next to other spellings; 12 goroutines (ParseStandard, four Parsers, cron.New().AddFunc) are released from a spinning barrier before every spec and parse it at the same moment; expectation = the same parser's result for the numeric form of the spec, parsed beforehand. The cron, tz and separate-parsers specs draw month/day names in random spellings with an upper-case first letter. "+
 		"Then separate loggers over different kinds of output: fresh loggers in text and in JSON mode write to a bytes.Buffer, a regular temp file, the write end of an os.Pipe and the slave side of a pseudo-terminal (read back from the master; skipped and counted if no pty can be opened), one after the other (terminal logger first in odd rounds, last in even rounds) and all at once; structural oracle: no ESC and the time=/level=/msg=/scope= layout (or the logger's JSON record) on every non-terminal output, logrus' terminal layout on the terminal in text mode. Children with an odd batch index run the terminal-first pass as a prologue, so that the first text line of the process goes to a terminal there and to a buffer in the other children. "+
+		"Then slow sinks: logger y logs into a sink that reports 'entered' and blocks on a gate; with y inside Write an ApplyOptionsToLoggers (no app id) is started and, once it is parked, 4 goroutines look 12 unrelated fresh names up with NewLogger - they must return while the gate is still closed (a 15 s watchdog only triggers a goroutine dump; the verdict is goroutines parked in NewLogger on the registry lock); then the same with a sink that calls NewLogger from inside Write after the gate opens: the logging call and the Apply must both return. "+
 		"distinct = distinct pipeline descriptions; non-trivial = at least one of its concurrent runs started while >= 16 goroutines of the round were active. Both builds (-race 'main', 'plain') run the same plan; counters prefixed main./plain. split them.")
 	rec.Note("require", []string{"main.pipelines", "plain.pipelines", "gomaxprocs.2.rounds", "gomaxprocs.4.rounds", "gomaxprocs.16.rounds",
 		"enc.same_as_alone.real_work", "dec.same_as_alone.real_work", "sym.same_as_alone.real_work", "asym.same_as_alone.real_work", "keys.same_as_alone.real_work",
@@ -419,6 +421,8 @@ func TestCheck(t *testing.T) {
 		"main.cronnames.fresh_spellings_first_met_by_12_goroutines_at_once", "plain.cronnames.fresh_spellings_first_met_by_12_goroutines_at_once", "cronnames.named_vs_numeric_checks", "cronparsers.specs_with_names",
 		"logkinds.lines_checked.buffer.text", "logkinds.lines_checked.file.text", "logkinds.lines_checked.pipe.text", "logkinds.lines_checked.buffer.json", "logkinds.lines_checked.file.json", "logkinds.lines_checked.pipe.json",
 		"logkinds.passes.pty_first=true", "logkinds.passes.pty_first=false", "logkinds.prologue_terminal_first_in_process",
+		"main.logslow.unrelated_lookups_completed_while_another_loggers_sink_was_blocked", "plain.logslow.unrelated_lookups_completed_while_another_loggers_sink_was_blocked",
+		"main.logslow.reentrant_sink_scenarios_completed", "plain.logslow.reentrant_sink_scenarios_completed",
 		"cronparsers.solo_accepted", "cronparsers.solo_refused", "main.cronparsers.cross_order_checks", "plain.cronparsers.cross_order_checks", "main.cronparsers.caller_mutation_checks", "plain.cronparsers.caller_mutation_checks",
 		"main.cronparsers.sequential_descriptor_requeries", "plain.cronparsers.sequential_descriptor_requeries", "main.cronparsers.concurrent_descriptor_requeries", "plain.cronparsers.concurrent_descriptor_requeries",
 		"enc.invalid_documents_same_error", "enc.unwrap_callback_pauses", "enc.streamed_decrypts", "enc.len.around_512_header_step", "enc.len.around_64KiB_boundary",
